@@ -56,7 +56,7 @@ STRUCT_PASSES = ["dce", "canonicalize", "bare", "bare_rev", "legacy"]
 EXEC_PASSES = ["dce", "canonicalize", "bare", "legacy"]
 
 KNOWN_KEYS = {
-    "oneshot": "dce:incomplete:single-round-keeps-defs-used-only-inside-removed-ops",
+    "oneshot": "dce:incomplete:single-liveness-round",
     "extsi": "incomplete:arith.extsi-declares-no-effects",
     "remui": "incomplete:arith.remui-declares-no-effects",
     "alloc": "incomplete:memref.alloc-effect-not-tied-to-its-result",
@@ -691,7 +691,7 @@ def compare_sets(pname, snap, got, blocks_after, problems, exact):
     for kind, what in problems[:3]:
         out.append((f"{pname}:dangling:{kind}", f"after {pname}: {kind} ({what})", {"what": what}))
     if exact:
-        want = R.survivors(snap, precise=True)
+        want, _rounds = R.complete(snap)
         wblocks = R.surviving_blocks(snap, want)
         if got == want:
             for k, n in wblocks.items():
@@ -707,7 +707,8 @@ def compare_sets(pname, snap, got, blocks_after, problems, exact):
         devs = [d for d in devs if d == "oneshot" or present & set(R.DEVIATIONS[d])]
         for size in range(1, len(devs) + 1):
             for sub in itertools.combinations(devs, size):
-                w = R.survivors(snap, precise="oneshot" not in sub, dev=[d for d in sub if d != "oneshot"])
+                dv = [d for d in sub if d != "oneshot"]
+                w = R.one_round(snap, None, dv) if "oneshot" in sub else R.complete(snap, dv)[0]
                 if w == got:
                     for d in sub:
                         key = KNOWN_KEYS[d] if d == "oneshot" else f"{pname}:{KNOWN_KEYS[d]}"
@@ -718,7 +719,8 @@ def compare_sets(pname, snap, got, blocks_after, problems, exact):
         removed_live = want - got
         kept_dead = got - want
         if removed_live:
-            roots = [i for i in removed_live if R.why_not(snap.by_id[i], allblocks=False) is not None]
+            roots = [i for i in removed_live if _visible(snap.by_id[i]) and
+                     R.why_not(snap.by_id[i], allblocks=False) is not None]
             why = sorted({R.why_not(snap.by_id[i], allblocks=False) for i in roots})[:3] or ["used-by-live-op"]
             out.append((f"{pname}:removed-live:{'|'.join(why)}",
                         f"{pname} removed ops the reference keeps: {_names(snap, removed_live)}",
@@ -798,18 +800,19 @@ def work(job):
             m = gen_struct(cseed)
             snap = R.snapshot(m)
             canon = shash(R.canon(snap))
-            want = R.survivors(snap)
+            want, rounds = R.complete(snap)
             ncand_kept = sum(1 for i in want if R.candidate(snap.by_id[i], allblocks=False))
             nontriv = len(want) < len(snap.nodes) and ncand_kept >= 1
             if nontriv:
                 nt.add(canon)
             opnames.update(n.name for n in snap.nodes)
             bump("struct_modules")
+            bump("struct_modules_needing_more_than_one_round", int(rounds > 1))
+            bump("struct_modules_where_precise_beats_iterated", int(R.precise_survivors(snap) != want))
             bump("struct_ops_generated", len(snap.nodes))
             bump("struct_ops_reference_removes", len(snap.nodes) - len(want))
             bump("struct_modules_with_unreachable_block",
                  int(any(not b.reach for n in snap.nodes for reg in n.regions for b in reg)))
-            bump("struct_modules_where_one_round_model_differs", int(R.survivors(snap, precise=False) != want))
             triv = set(snap.by_id) - R.trivially_removable(snap)
             bump("struct_modules_where_liveness_beats_trivial", int(triv != want))
             passes = [only_pass] if only_pass else ["dce", STRUCT_PASSES[1 + k % 4]]
@@ -852,13 +855,14 @@ def work(job):
             m0.verify()
             snap = R.snapshot(m0)
             canon = shash(R.canon(snap))
-            want = R.survivors(snap)
+            want, rounds = R.complete(snap)
             ncand_kept = sum(1 for i in want if R.candidate(snap.by_id[i], allblocks=False))
             nontriv = len(want) < len(snap.nodes) and ncand_kept >= 1
             if nontriv:
                 nt.add(canon)
             opnames.update(n.name for n in snap.nodes)
             bump("exec_programs")
+            bump("exec_programs_needing_more_than_one_round", int(rounds > 1))
             bump("exec_ops_generated", len(snap.nodes))
             bump("exec_ops_reference_removes", len(snap.nodes) - len(want))
             bump("exec_programs_with_unreachable_block",
@@ -914,13 +918,29 @@ def work(job):
                     except refsem.StepLimit:
                         a = ("steps",)
                     if a != b:
-                        same = False
                         if a[0] != "ok":
                             kind = "introduced-ub-or-nontermination"
                         elif a[1] != b[1]:
                             kind = "results-differ"
                         else:
                             kind = "effect-log-differs"
+                        if pname == "canonicalize":
+                            # attribute: the same pass with every dead-code removal switched off (folding and the
+                            # other patterns untouched). Same wrong answer => not caused by DCE (C14's subject).
+                            m2 = _canonicalize_without_dce(text, ctx)
+                            try:
+                                a2 = ("ok",) + tuple(map(_freeze, refsem.run(m2, "main", row, step_limit=40000)))
+                            except refsem.Undefined as e:
+                                a2 = ("ub", str(e))
+                            except refsem.StepLimit:
+                                a2 = ("steps",)
+                            if a2 != b:
+                                bump("exec_canonicalize_differences_present_without_any_dce")
+                                res["sets"].setdefault("canonicalize_differences_not_attributed_to_dce", [])
+                                if kind not in res["sets"]["canonicalize_differences_not_attributed_to_dce"]:
+                                    res["sets"]["canonicalize_differences_not_attributed_to_dce"].append(kind)
+                                continue
+                        same = False
                         d = dict(wit)
                         d.update({"input": _freeze(row), "before": b, "after": a, "program_after": str(m)[:3000]})
                         viol(f"exec:{pname}:{kind}", f"{pname}: reference execution differs ({kind})", d)
@@ -939,6 +959,20 @@ def work(job):
     res["sets"]["hook_ops_not_in_table"] = sorted(H.not_in_table)
     C["nontrivial_cases"] = len(nt)
     return res
+
+
+def _canonicalize_without_dce(text, ctx):
+    import xdsl.transforms.canonicalize as CZ
+    import xdsl.transforms.dead_code_elimination as DM
+    saved = (DM.is_trivially_dead, CZ.region_dce)
+    DM.is_trivially_dead = lambda op: False
+    CZ.region_dce = lambda region, listener=None: False
+    try:
+        m = parse_tagged(text)
+        run_pass("canonicalize", m, ctx)
+    finally:
+        DM.is_trivially_dead, CZ.region_dce = saved
+    return m
 
 
 def _freeze(x):
